@@ -5,6 +5,7 @@
 //! TLC against a TLA+ definition (see /verif/specs).
 mod codec;
 mod deque;
+mod footprint;
 mod pipe;
 mod stream;
 mod util;
@@ -19,6 +20,7 @@ fn main() {
     match args[1].as_str() {
         "deque" => deque::drive_deque(&args[2], &args[3]),
         "codec" => codec::drive_codec(&args[2], &args[3]),
+        "footprint" => footprint::drive_footprint(&args[2], &args[3]),
         "pipe" => pipe::drive_pipe(&args[2], &args[3]),
         "stream" => stream::drive_stream(&args[2], &args[3]),
         "sorted" => deque::drive_sorted(&args[2], &args[3]),
